@@ -7,10 +7,12 @@
    fields: vid= role= dlen= dom= pk= sh=<->|shc= shq= shf=<liq meta att pend> shae= shix=  now=<unixsec>.<nsec> we= env=<n|v|f|i>
            b=<u|m|e|c|p>  c: mt= h= r= root= fd=<id|-> sg=<a,b|-> sl= sz= pjm= pjl= rcm= rcl= jok=
                           p: pt= ps= psg= it=<signer:root:len:zero,..|-> sl= sz=
+   e  ent= rec= kind= val=             one node-record entry reader (GetDomainTypeEntry / GetSubnetsEntry)
    observation: <accept|ignore:Tag|reject:Tag|panic:Site> st=<signer:slot,round,pre,prop,prep,com,dec,rc,post,pd,duties;..|->
 -/
 import Ssv.Common.Wire
 import Ssv.Model.Validation
+import Ssv.Model.ValidationRecords
 open Ssv Ssv.Validation Ssv.Wire
 
 structure DState where
@@ -139,6 +141,33 @@ def kernel (kind : String) (ws : List String) : String :=
     | .error (.tag t) => showOutcome (.reject t)
   | _ => "bad-op"
 
+/-- pack a list of 0/1 entries into bytes (bit i of byte i/8, as `bitfield.Bitvector128`) -/
+def packBits (l : List Nat) : List Nat :=
+  (List.range ((l.length + 7) / 8)).map fun j => (List.range 8).foldl (fun acc k => acc + (l.getD (8 * j + k) 0) * 2 ^ k) 0
+
+/-- `e ent=<domaintype|subnets> rec=<0|1> kind=<a|s|n> val=<hex|->`: one node-record entry read through the real enr.Record.
+    rec=0: the record could not be built / decoded (no reader runs); kind a: entry absent, s: canonical byte string (val), n: not a
+    byte string -/
+def entryOp (ws : List String) : String :=
+  if natD ws "rec" == 0 then "norecord" else
+  match kv ws "kind" with
+  | some "a" => "notfound"
+  | some k =>
+    let v? : Option EnrValue :=
+      if k == "n" then some .notBytes
+      else if k == "s" then (match kv ws "val" with
+        | some "-" => some (.bytes [])
+        | some h => (unhex h).map .bytes
+        | none => none)
+      else none
+    match v?, kv ws "ent" with
+    | some v, some "domaintype" =>
+      (match decodeDomainType v with | .ok b => "ok:" ++ hex b | .err => "err" | .panic => "panic:enr-domaintype")
+    | some v, some "subnets" =>
+      (match decodeSubnets v with | .ok l => "ok:" ++ hex (packBits l) | .err => "err" | .panic => "panic:enr-subnets")
+    | _, _ => "bad-op"
+  | none => "bad-op"
+
 def stepLine (d : DState) (line : String) : DState × String :=
   let ws := words line
   match ws with
@@ -169,6 +198,7 @@ def stepLine (d : DState) (line : String) : DState × String :=
       let (st', o) := validateP2P d.ctx d.st p
       ({ d with st := st' }, showOutcome o ++ " st=" ++ showState st' i)
     | none => (d, "bad-op")
+  | "e" :: rest => (d, entryOp rest)
   | "f" :: _ => (d, "fz")      -- malformed byte stream: oracle only, no model
   | "conc" :: _ => (d, "ok")   -- concurrent stage: the harness runs this driver itself as the sequential oracle
   | "k" :: kind :: rest => (d, kernel kind rest)
